@@ -381,6 +381,19 @@ def k1_handler_depth(res, tier):
         e.assume(z3.And(params >= 0, params <= 255))
         pl = f.debug.get('parameters')
         preset = {slot_l[0]: slots0, iter_l[0]: it}
+        # CFG-aware simulation state (present since the fix of the linear simulation)
+        ft_l = f.debug.get('falls_through')
+        ls_l = f.debug.get('label_slots')
+        falls = None
+        lslots = None
+        if ft_l and re.match(r'^_\d+$', ft_l):
+            falls = z3.Bool('falls_through')
+            preset[ft_l] = falls
+        if ls_l and re.match(r'^_\d+$', ls_l):
+            nl = z3.BitVec('n_labels', 64)
+            e.assume(z3.ULT(nl, 1 << 16))
+            lslots = e.fresh_seq('std::option::Option<i32>', NameBacking('label_slots'), nl)
+            preset[ls_l] = lslots
         if pl and re.match(r'^_\d+$', pl):
             preset[pl] = params
         else:
@@ -396,13 +409,25 @@ def k1_handler_depth(res, tier):
             raise Unsupported('loop exit with an instruction pending')
         slots1 = fr.locals[slot_l[0]].get(e)
         eff = e.call(feff, [Ref(Cell(ins0))])
-        e.check(slots1 == slots0 + eff, 'running depth advances by the instruction effect')
+        start = slots0
+        LBL = ed.vindex['Label']
+        if falls is not None and lslots is not None and e.sat(ins0.tag == LBL if not isinstance(ins0.tag, int) else ins0.tag == LBL):
+            is_label = (ins0.tag == LBL) if not isinstance(ins0.tag, int) else z3.BoolVal(ins0.tag == LBL)
+            lab = z3.ZeroExt(32, ins0.field(e, 'Label', 0, 'byte_code::Label').get(e).field(e, 0, 'u32').get(e))
+            from mirsym.values import TermBacking
+            elem = z3.Select(lslots.arr, lab)
+            otag = TermBacking(elem, lslots.tyname).child('tag').leaf(e, z3.BitVecSort(64))
+            oval = TermBacking(elem, lslots.tyname).child('Some').child(0).leaf(e, z3.BitVecSort(32))
+            e.add_constraint(z3.ULT(otag, 2))
+            start = z3.If(z3.And(is_label, z3.Not(falls), z3.ULT(lab, lslots.len), otag == 1), oval, slots0)
+            e.assume(z3.And(oval >= 0, oval < (1 << 15)))
+        e.check(slots1 == start + eff, 'running depth advances by the instruction effect (a label behind an unconditional transfer takes the depth of its jump)')
         after = prog.load(e, k)
         is_ph = ins0.tag == PH
         if e.fork_bool(is_ph):
             after.tag = PH
             w = after.field(e, 'PushHandler', 0, '(u16, byte_code::Label)').get(e)
-            e.check(z3.ZeroExt(16, w.field(e, 0, 'u16').get(e)) == slots0 + params,
+            e.check(z3.ZeroExt(16, w.field(e, 0, 'u16').get(e)) == start + params,
                     'PushHandler receives the depth before the instruction (plus the parameter slots)')
             ins0.tag = PH
             l0 = ins0.field(e, 'PushHandler', 0, '(u16, byte_code::Label)').get(e).field(e, 1, 'byte_code::Label').get(e).field(e, 0, 'u32').get(e)
